@@ -420,6 +420,8 @@ pub fn aux_env_letters() -> Vec<Letter> {
     al.push(Letter::one(d("ACS", &k(&[4, 4]))));
     al.push(Letter::one(u(Some(0), "CAL", "BIOMASA", &k(&[1, 1]))));
     al.push(Letter::one(u(Some(3), "REF", "RED1", &k(&[1, 1]))));
+    // DHW from a biomass boiler that declares its output, beside a gas boiler (the DHW indicator uses the output)
+    al.push(Letter::many(vec![u(Some(9), "ACS", "BIOMASA", &k(&[4, 2])), o(9, "ACS", &k(&[3, 1])), u(Some(10), "ACS", "GASNATURAL", &k(&[1, 1]))]));
     // a second nearby carrier for DHW (with the ambient heat letters: more nearby supply than the demand letter declares)
     al.push(Letter::one(u(Some(3), "ACS", "RED1", &k(&[3, 3]))));
     al.push(Letter::many(vec![p(Some(4), "EL_COGEN", &k(&[3, 3])), u(Some(4), "COGEN", "GASNATURAL", &k(&[3, 3])), u(Some(4), "COGEN", "BIOMASA", &k(&[3, 1])), u(Some(4), "COGEN", "RED1", &k(&[1, 1]))]));
